@@ -196,7 +196,7 @@ def check_C06(tier, replay):
             for r in range(N):
                 jobs.append(ej.job(f"{grp}.{r}", c, inputs, pe, [0], cap=0, pol={"kind": "Oldest"}, events=False, probes=True,
                                    content_phases=["masked inputs", "wire shares"],
-                                   tag={"grp": grp, "h": h, "canary": False}))
+                                   tag={"grp": grp, "h": h, "canary": False, "reuse": False}))
     # canary: 128 random input bits of the observed party
     for r in range(20 if q else 100):
         n = 2
@@ -205,7 +205,16 @@ def check_C06(tier, replay):
         inputs = [[rng.random() < 0.5 for _ in range(128)] for _ in range(n)]
         jobs.append(ej.job(f"canary.{r}", c, inputs, 0, [1], cap=0, pol={"kind": "Oldest"}, events=False, probes=True,
                            content_phases=["masked inputs", "wire shares"], canary=[h, inputs[h]],
-                           tag={"grp": "canary", "h": h, "canary": True}))
+                           tag={"grp": "canary", "h": h, "canary": True, "reuse": False}))
+    # several preprocessing batches inside one run (more than 1000 random shares): own shares vs. disclosed shares
+    for r in range(6 if q else 30):
+        n = 2
+        h = r % 2
+        c = input_circuit(n, 600, outs=1)
+        inputs = [[rng.random() < 0.5 for _ in range(600)] for _ in range(n)]
+        jobs.append(ej.job(f"reuse.{r}", c, inputs, r % 2, [0], cap=0, pol={"kind": "Oldest"}, events=False, probes=True,
+                           content_phases=["masked inputs", "wire shares"],
+                           tag={"grp": "reuse", "h": h, "canary": True, "reuse": True}))
     out = vlib.run_pt("engine", jobs, wd, name="c06", timeout=7200)
     res = vlib.tlc_trace("Mon_C06", vlib.MON_CFG, out, wd, depth_first=False, timeout=3600)
     jb = {j["id"]: j for j in jobs}
@@ -258,7 +267,8 @@ def check_C07(tier, replay):
                     # always keep the deviations that an honest party may not notice (claims it cannot check
                     # directly); sample the rest
                     keep = [x for x in scs if x["what"] in ("aShare check bit", "aShare MAC in the decommitment",
-                                                           "aShare commitment to the MAC vector", "LaAND e bit", "HaAND bits")
+                                                           "aShare commitment to the MAC vector", "LaAND e bit", "HaAND bits",
+                                                           "masked value for a non-input register")
                             and x["devs"][0].get("k") == 0]
                     rest = [x for x in scs if x not in keep]
                     scs = keep + rng.sample(rest, min(10, len(rest)))
